@@ -16,7 +16,7 @@ TRUSTED = ['harness/gen_tables.py', 'correspondence harness (parsecorr.py): pars
 ASSUMPTIONS = ['CPython str semantics', 'the model driver is the compiled form of the verified definitions']
 LEAN_TARGETS = LEAN_TARGETS + ['TexSoupProofs.Properties.TableSpec']
 # entries of the generated tables that the property's statement names (they stop compiling when a table edit drops them)
-THEOREMS = THEOREMS + ['TexSoup.TableSpec.' + n for n in ['fixed_signatures', 'sizing_prefixes_and_delimiters', 'spacer_chars']]
+THEOREMS = THEOREMS + ['TexSoup.TableSpec.' + n for n in ['fixed_signatures', 'sizing_prefixes_and_delimiters', 'spacer_chars', 'mandatory_argument_commands']]
 
 ALPHA = [a for a in gen.TOKEN_ALPHA if '\x00' not in a and '\x7f' not in a]
 
@@ -42,7 +42,7 @@ def check_one(s):
     if '\x00' in s or '\x7f' in s:
         return None
     l0, soup, _ = common.impl_parse(s, 0)
-    if soup is None or oracles.has_bare_args(soup) or oracles.hidden_bare(s) or oracles.size_prefix_detached(s) \
+    if soup is None or oracles.excused_bare_args(soup) or oracles.hidden_bare(s) or oracles.size_prefix_detached(s) \
             or oracles.name_not_in_source(s, soup):
         return None
     t = str(soup)
@@ -90,6 +90,7 @@ def oracle(ctx, seeds, scale):
             d = d.replace('\\' + nm + '{', '\\' + nm + rg.choice(seps) + '{').replace('\\' + nm + '[', '\\' + nm + rg.choice(seps) + '[')
         strs.append(d)
     strs += gen.padded_env_docs()
+    strs += gen.signature_probe_docs() + gen.escape_docs() + gen.codepoint_docs(rg, False, 500) + [d for d, _ in gen.name_neighbour_docs()]
     docs = gen.corpus()
     strs += docs
     for d in docs[:40]:
